@@ -138,3 +138,27 @@ package tcp
 //@   requires s.ep != nil && s.rto >= 200000000
 //@   ensures s.rto >= 200000000
 //@   modifies s.rtt.rttvar, s.rtt.srtt, s.srttInited, s.rto
+
+// ---------------------------------------------------------------------------
+// C14: the users of sequence-number arithmetic give serial-number answers (modulo 2^32),
+// wherever the connection's sequence space starts.
+
+// sbefore(x, y): x precedes y in serial-number order (forward distance 1 .. 2^31-1).
+//@ define sbefore(x, y) = (y - x >= 1 && y - x <= 0x7fffffff)
+// safter(x, y): x is strictly after y, or exactly half the space away.
+//@ define safter(x, y) = (x != y && !sbefore(x, y))
+
+// The heap of out-of-order segments is ordered by serial-number precedence of the first
+// sequence number (not by the raw 32-bit value).
+//@ func (segmentHeap).Less props C14 C01
+//@   requires 0 <= i && i < len(h) && 0 <= j && j < len(h) && h[i] != nil && h[j] != nil
+//@   ensures implies(h[j].sequenceNumber - h[i].sequenceNumber != 0x80000000, result == sbefore(h[i].sequenceNumber, h[j].sequenceNumber))
+
+// RFC 793 page 26: with a closed window only an empty segment at rcvNxt is acceptable; with
+// an open window of w numbers a segment is acceptable iff its first number lies in the window
+// or (for windows that are not both huge) the segment's range and the window share a number.
+//@ func (*receiver).acceptable props C14 C04
+//@   requires r != nil
+//@   ensures implies(r.rcvAcc == r.rcvNxt, result == (segLen == 0 && segSeq == r.rcvNxt))
+//@   ensures implies(r.rcvAcc != r.rcvNxt && segLen == 0, result == (segSeq - r.rcvNxt < r.rcvAcc - r.rcvNxt))
+//@   ensures implies(r.rcvAcc != r.rcvNxt && segLen > 0 && uint64(r.rcvAcc - r.rcvNxt) + uint64(segLen) <= 0x80000000, result == (segSeq - r.rcvNxt < r.rcvAcc - r.rcvNxt || r.rcvNxt - segSeq < seqnum.Value(segLen)))
